@@ -425,6 +425,7 @@ package kvgraph
 //@   option prelude=kv
 //@   modifies H.gripql. H.structpb. MapD. MapV. MapN SH. alloc
 //@   ensures vertex: result == nil && dyn(m, "*gripql.Vertex") ==> ptr(m, "*gripql.Vertex").Label == vlabel(b)
+//@   ensures frame: freshonly("SH.Str") && freshonly("H.gdbi.DataElement.ID") && freshonly("H.gdbi.DataElement.Label") && freshonly("H.gdbi.DataElement.From") && freshonly("H.gdbi.DataElement.To")
 
 // GetEdge returns an edge iff some edge key of (graph, id) is stored; id, endpoints and
 // label are the components of that key; nothing is written.
@@ -502,4 +503,277 @@ package kvgraph
 //@   ensures closed: closed(o)
 //@   ensures all: wr(o) == pcount(kvdom(), EdgeListPrefix(kgdb.graph))
 //@   ensures stored: !loadProp ==> (forall j :: 0 <= j && j < wr(o) ==> o[j] != nil && kvhas(ekeyOf(kgdb.graph, o[j].ID, o[j].From, o[j].To, o[j].Label, 1)))
+//@   ensures readonly: same(kvdom(), old(kvdom())) && same(kvvals(), old(kvvals())) && kvwrites() == old(kvwrites())
+
+// ---- C03: adjacency reads, first half (scan of the by-source index) --------------------
+//@ func contains
+//@   property C03
+//@   pure
+//@   loop 1 invariant none: forall j :: 0 <= j && j <= rangeindex ==> a[j] != v
+//@   ensures def: result <==> (exists j :: 0 <= j && j < len(a) && a[j] == v)
+
+//@ lemma keys.layout.prefixes
+//@   property C03 C16
+//@   option prelude=keys
+//@   option pkg=kvgraph
+//@   option globals=kvgraph
+//@   params g:string id:string
+//@   ensures src: SrcEdgePrefix(g, id) == spfxOf(g, id)
+//@   ensures dst: DstEdgePrefix(g, id) == dpfxOf(g, id)
+
+// GetOutChannel's scanner. For every request, in request order: a signal is passed on as
+// one item without data; any other request is answered from the by-source entries stored
+// under SrcEdgePrefix(graph, request id): every item sent carries the request it answers
+// and the vertex key of the destination of one such stored entry whose label is admitted
+// by edgeLabels (soundness: nothing is invented, no other vertex's entries are read); an
+// item without data is sent only when emitNull is set. Without a label filter the number
+// of items is exact: one per stored entry under the prefix, or one null item when there is
+// none and emitNull is set. Nothing is written.
+//@ func (*KVInterfaceGDB).GetOutChannel$1
+//@   property C03
+//@   option prelude=keys,kv,idxcount,trav
+//@   option load=kvindex,kvi,timestamp,gdbi,gripql
+//@   option globals=kvgraph
+//@   modifies alloc KV.it Ch SH. Box.
+//@   requires nonnil: kgdb != nil && kgdb.kvg != nil && kgdb.kvg.kv != nil
+//@   requires fresh: reqChan != nil && vertexChan != nil && reqChan != vertexChan && rd(reqChan) == 0 && wr(vertexChan) == 0 && !closed(vertexChan)
+//@   requires labels: soff(edgeLabels) >= 0
+//@   requires wf: nozero(kgdb.graph) && (forall k:Str, v:Str :: kvhas(k) && hasprefix(k, spfxOf(kgdb.graph, v)) ==>
+//@       nozero(slnth(bsplit(k, sep0), 3)) && nozero(slnth(bsplit(k, sep0), 4)) && nozero(slnth(bsplit(k, sep0), 5)) && nozero(v) &&
+//@       k == skeyOf(kgdb.graph, v, slnth(bsplit(k, sep0), 3), slnth(bsplit(k, sep0), 4), slnth(bsplit(k, sep0), 5), 1))
+//@   axiom c0: cnt(reqChan, 0) == 0
+//@   axiom cS: forall k :: 0 <= k ==> cnt(reqChan, k + 1) == cnt(reqChan, k) +
+//@       ite(reqChan[k].Ref != nil && tSignal(reqChan[k].Ref), 1,
+//@           ite(pcount(kvdom(), spfxOf(kgdb.graph, reqChan[k].ID)) == 0, ite(emitNull, 1, 0), pcount(kvdom(), spfxOf(kgdb.graph, reqChan[k].ID))))
+//@   loop 101 invariant pos: 0 <= rd(reqChan) && rd(reqChan) <= len(reqChan) && !closed(vertexChan)
+//@   loop 101 invariant store: same(kvdom(), old(kvdom())) && same(kvvals(), old(kvvals())) && kvwrites() == old(kvwrites())
+//@   loop 101 invariant sound: forall m :: 0 <= m && m < wr(vertexChan) ==> (((vertexChan[m].req.Ref != nil && tSignal(vertexChan[m].req.Ref)) ==> vertexChan[m].data == "") &&
+//@       (!(vertexChan[m].req.Ref != nil && tSignal(vertexChan[m].req.Ref)) && vertexChan[m].data == "" ==> emitNull) &&
+//@       (!(vertexChan[m].req.Ref != nil && tSignal(vertexChan[m].req.Ref)) && vertexChan[m].data != "" ==> (exists k:Str :: kvhas(k) && hasprefix(k, spfxOf(kgdb.graph, vertexChan[m].req.ID)) &&
+//@           vertexChan[m].data == vkeyOf(kgdb.graph, slnth(bsplit(k, sep0), 3)) &&
+//@           (len(edgeLabels) == 0 || (exists q :: 0 <= q && q < len(edgeLabels) && edgeLabels[q] == slnth(bsplit(k, sep0), 5))))))
+//@   loop 101 invariant count: len(edgeLabels) == 0 ==> wr(vertexChan) == cnt(reqChan, rd(reqChan))
+//@   loop 102 invariant pos: 0 < rd(reqChan) && rd(reqChan) <= len(reqChan) && !closed(vertexChan) && req == reqChan[rd(reqChan) - 1] &&
+//@       !(req.Ref != nil && tSignal(req.Ref)) && skeyPrefix == spfxOf(kgdb.graph, req.ID)
+//@   loop 102 invariant store: same(kvdom(), old(kvdom())) && same(kvvals(), old(kvvals())) && kvwrites() == old(kvwrites())
+//@   loop 102 invariant iter: itvalid() ==> kvhas(itpos()) && ble(skeyPrefix, itpos())
+//@   loop 102 invariant sound: forall m :: 0 <= m && m < wr(vertexChan) ==> (((vertexChan[m].req.Ref != nil && tSignal(vertexChan[m].req.Ref)) ==> vertexChan[m].data == "") &&
+//@       (!(vertexChan[m].req.Ref != nil && tSignal(vertexChan[m].req.Ref)) && vertexChan[m].data == "" ==> emitNull) &&
+//@       (!(vertexChan[m].req.Ref != nil && tSignal(vertexChan[m].req.Ref)) && vertexChan[m].data != "" ==> (exists k:Str :: kvhas(k) && hasprefix(k, spfxOf(kgdb.graph, vertexChan[m].req.ID)) &&
+//@           vertexChan[m].data == vkeyOf(kgdb.graph, slnth(bsplit(k, sep0), 3)) &&
+//@           (len(edgeLabels) == 0 || (exists q :: 0 <= q && q < len(edgeLabels) && edgeLabels[q] == slnth(bsplit(k, sep0), 5))))))
+//@   loop 102 invariant count: len(edgeLabels) == 0 ==>
+//@       (itvalid() ==> wr(vertexChan) == cnt(reqChan, rd(reqChan) - 1) + pbelow(kvdom(), skeyPrefix, itpos()) && (found <==> pbelow(kvdom(), skeyPrefix, itpos()) > 0)) &&
+//@       (!itvalid() ==> wr(vertexChan) == cnt(reqChan, rd(reqChan) - 1) + pcount(kvdom(), skeyPrefix) && (found <==> pcount(kvdom(), skeyPrefix) > 0))
+//@   ensures closed: closed(vertexChan)
+//@   ensures drained: rd(reqChan) == len(reqChan)
+//@   ensures sound: forall m :: 0 <= m && m < wr(vertexChan) ==> (((vertexChan[m].req.Ref != nil && tSignal(vertexChan[m].req.Ref)) ==> vertexChan[m].data == "") &&
+//@       (!(vertexChan[m].req.Ref != nil && tSignal(vertexChan[m].req.Ref)) && vertexChan[m].data == "" ==> emitNull) &&
+//@       (!(vertexChan[m].req.Ref != nil && tSignal(vertexChan[m].req.Ref)) && vertexChan[m].data != "" ==> (exists k:Str :: kvhas(k) && hasprefix(k, spfxOf(kgdb.graph, vertexChan[m].req.ID)) &&
+//@           vertexChan[m].data == vkeyOf(kgdb.graph, slnth(bsplit(k, sep0), 3)) &&
+//@           (len(edgeLabels) == 0 || (exists q :: 0 <= q && q < len(edgeLabels) && edgeLabels[q] == slnth(bsplit(k, sep0), 5))))))
+//@   ensures count: len(edgeLabels) == 0 ==> wr(vertexChan) == cnt(reqChan, len(reqChan))
+//@   ensures readonly: same(kvdom(), old(kvdom())) && same(kvvals(), old(kvvals())) && kvwrites() == old(kvwrites())
+
+// ---- C03: adjacency reads answered in one pass ------------------------------------------
+// GetOutEdgeChannel / GetInEdgeChannel: for every request, in request order, a signal is
+// passed on unchanged; any other request is answered from the entries stored under the
+// by-source (resp. by-destination) prefix of the requested vertex: every answer carries an
+// edge whose id, endpoints and label are the components of one such stored entry with an
+// admitted label, the requested vertex being its source (resp. destination); an answer
+// without an edge is sent only when emitNull is set. Without a label filter the number of
+// answers is exact (one per stored entry, or one null answer when there is none and emitNull
+// is set). Nothing is written. Assumes well-formed index keys whose edge key is stored.
+//@ func (*KVInterfaceGDB).GetOutEdgeChannel$1
+//@   property C03
+//@   option prelude=keys,kv,idxcount,trav
+//@   option load=kvindex,kvi,timestamp,gdbi,gripql
+//@   option globals=kvgraph
+//@   modifies alloc KV.it Ch SH. Box. H.gdbi. H.gripql. H.structpb. MapD. MapV. MapN
+//@   requires nonnil: kgdb != nil && kgdb.kvg != nil && kgdb.kvg.kv != nil
+//@   requires fresh: reqChan != nil && o != nil && reqChan != o && rd(reqChan) == 0 && wr(o) == 0 && !closed(o)
+//@   requires labels: soff(edgeLabels) >= 0
+//@   requires wf: nozero(kgdb.graph) && (forall k:Str, v:Str :: kvhas(k) && hasprefix(k, spfxOf(kgdb.graph, v)) ==>
+//@       nozero(slnth(bsplit(k, sep0), 3)) && nozero(slnth(bsplit(k, sep0), 4)) && nozero(slnth(bsplit(k, sep0), 5)) && nozero(v) &&
+//@       k == skeyOf(kgdb.graph, v, slnth(bsplit(k, sep0), 3), slnth(bsplit(k, sep0), 4), slnth(bsplit(k, sep0), 5), 1) && kvhas(ekeyOf(kgdb.graph, slnth(bsplit(k, sep0), 4), v, slnth(bsplit(k, sep0), 3), slnth(bsplit(k, sep0), 5), 1)))
+//@   axiom c0: cnt(reqChan, 0) == 0
+//@   axiom cS: forall k :: 0 <= k ==> cnt(reqChan, k + 1) == cnt(reqChan, k) +
+//@       ite(reqChan[k].Ref != nil && tSignal(reqChan[k].Ref), 1,
+//@           ite(pcount(kvdom(), spfxOf(kgdb.graph, reqChan[k].ID)) == 0, ite(emitNull, 1, 0), pcount(kvdom(), spfxOf(kgdb.graph, reqChan[k].ID))))
+//@   loop 101 invariant pos: 0 <= rd(reqChan) && rd(reqChan) <= len(reqChan) && !closed(o)
+//@   loop 101 invariant frame: freshonly("SH.Str")
+//@   loop 101 invariant store: same(kvdom(), old(kvdom())) && same(kvvals(), old(kvvals())) && kvwrites() == old(kvwrites())
+//@   loop 101 invariant sound: forall m :: 0 <= m && m < wr(o) ==> ((!(o[m].Ref != nil && tSignal(o[m].Ref)) && o[m].Edge == nil ==> emitNull) &&
+//@       (!(o[m].Ref != nil && tSignal(o[m].Ref)) && o[m].Edge != nil ==> o[m].Edge > 0 && o[m].Edge < alloc && kvhas(skeyOf(kgdb.graph, o[m].ID, o[m].Edge.To, o[m].Edge.ID, o[m].Edge.Label, 1)) && o[m].Edge.From == o[m].ID &&
+//@           (len(edgeLabels) == 0 || (exists q :: 0 <= q && q < len(edgeLabels) && edgeLabels[q] == o[m].Edge.Label))))
+//@   loop 101 invariant count: len(edgeLabels) == 0 ==> wr(o) == cnt(reqChan, rd(reqChan))
+//@   loop 102 invariant pos: 0 < rd(reqChan) && rd(reqChan) <= len(reqChan) && !closed(o) && req.ID == reqChan[rd(reqChan) - 1].ID && req.Ref == reqChan[rd(reqChan) - 1].Ref &&
+//@       !(req.Ref != nil && tSignal(req.Ref)) && skeyPrefix == spfxOf(kgdb.graph, req.ID)
+//@   loop 102 invariant frame: freshonly("SH.Str")
+//@   loop 102 invariant store: same(kvdom(), old(kvdom())) && same(kvvals(), old(kvvals())) && kvwrites() == old(kvwrites())
+//@   loop 102 invariant iter: itvalid() ==> kvhas(itpos()) && ble(skeyPrefix, itpos())
+//@   loop 102 invariant sound: forall m :: 0 <= m && m < wr(o) ==> ((!(o[m].Ref != nil && tSignal(o[m].Ref)) && o[m].Edge == nil ==> emitNull) &&
+//@       (!(o[m].Ref != nil && tSignal(o[m].Ref)) && o[m].Edge != nil ==> o[m].Edge > 0 && o[m].Edge < alloc && kvhas(skeyOf(kgdb.graph, o[m].ID, o[m].Edge.To, o[m].Edge.ID, o[m].Edge.Label, 1)) && o[m].Edge.From == o[m].ID &&
+//@           (len(edgeLabels) == 0 || (exists q :: 0 <= q && q < len(edgeLabels) && edgeLabels[q] == o[m].Edge.Label))))
+//@   loop 102 invariant count: len(edgeLabels) == 0 ==>
+//@       (itvalid() ==> wr(o) == cnt(reqChan, rd(reqChan) - 1) + pbelow(kvdom(), skeyPrefix, itpos()) && (found <==> pbelow(kvdom(), skeyPrefix, itpos()) > 0)) &&
+//@       (!itvalid() ==> wr(o) == cnt(reqChan, rd(reqChan) - 1) + pcount(kvdom(), skeyPrefix) && (found <==> pcount(kvdom(), skeyPrefix) > 0))
+//@   ensures closed: closed(o)
+//@   ensures drained: rd(reqChan) == len(reqChan)
+//@   ensures sound: forall m :: 0 <= m && m < wr(o) ==> ((!(o[m].Ref != nil && tSignal(o[m].Ref)) && o[m].Edge == nil ==> emitNull) &&
+//@       (!(o[m].Ref != nil && tSignal(o[m].Ref)) && o[m].Edge != nil ==> o[m].Edge > 0 && o[m].Edge < alloc && kvhas(skeyOf(kgdb.graph, o[m].ID, o[m].Edge.To, o[m].Edge.ID, o[m].Edge.Label, 1)) && o[m].Edge.From == o[m].ID &&
+//@           (len(edgeLabels) == 0 || (exists q :: 0 <= q && q < len(edgeLabels) && edgeLabels[q] == o[m].Edge.Label))))
+//@   ensures count: len(edgeLabels) == 0 ==> wr(o) == cnt(reqChan, len(reqChan))
+//@   ensures readonly: same(kvdom(), old(kvdom())) && same(kvvals(), old(kvvals())) && kvwrites() == old(kvwrites())
+
+//@ func (*KVInterfaceGDB).GetInEdgeChannel$1
+//@   property C03
+//@   option prelude=keys,kv,idxcount,trav
+//@   option load=kvindex,kvi,timestamp,gdbi,gripql
+//@   option globals=kvgraph
+//@   modifies alloc KV.it Ch SH. Box. H.gdbi. H.gripql. H.structpb. MapD. MapV. MapN
+//@   requires nonnil: kgdb != nil && kgdb.kvg != nil && kgdb.kvg.kv != nil
+//@   requires fresh: reqChan != nil && o != nil && reqChan != o && rd(reqChan) == 0 && wr(o) == 0 && !closed(o)
+//@   requires labels: soff(edgeLabels) >= 0
+//@   requires wf: nozero(kgdb.graph) && (forall k:Str, v:Str :: kvhas(k) && hasprefix(k, dpfxOf(kgdb.graph, v)) ==>
+//@       nozero(slnth(bsplit(k, sep0), 3)) && nozero(slnth(bsplit(k, sep0), 4)) && nozero(slnth(bsplit(k, sep0), 5)) && nozero(v) &&
+//@       k == dkeyOf(kgdb.graph, slnth(bsplit(k, sep0), 3), v, slnth(bsplit(k, sep0), 4), slnth(bsplit(k, sep0), 5), 1) && kvhas(ekeyOf(kgdb.graph, slnth(bsplit(k, sep0), 4), slnth(bsplit(k, sep0), 3), v, slnth(bsplit(k, sep0), 5), 1)))
+//@   axiom c0: cnt(reqChan, 0) == 0
+//@   axiom cS: forall k :: 0 <= k ==> cnt(reqChan, k + 1) == cnt(reqChan, k) +
+//@       ite(reqChan[k].Ref != nil && tSignal(reqChan[k].Ref), 1,
+//@           ite(pcount(kvdom(), dpfxOf(kgdb.graph, reqChan[k].ID)) == 0, ite(emitNull, 1, 0), pcount(kvdom(), dpfxOf(kgdb.graph, reqChan[k].ID))))
+//@   loop 101 invariant pos: 0 <= rd(reqChan) && rd(reqChan) <= len(reqChan) && !closed(o)
+//@   loop 101 invariant frame: freshonly("SH.Str")
+//@   loop 101 invariant store: same(kvdom(), old(kvdom())) && same(kvvals(), old(kvvals())) && kvwrites() == old(kvwrites())
+//@   loop 101 invariant sound: forall m :: 0 <= m && m < wr(o) ==> ((!(o[m].Ref != nil && tSignal(o[m].Ref)) && o[m].Edge == nil ==> emitNull) &&
+//@       (!(o[m].Ref != nil && tSignal(o[m].Ref)) && o[m].Edge != nil ==> o[m].Edge > 0 && o[m].Edge < alloc && kvhas(dkeyOf(kgdb.graph, o[m].Edge.From, o[m].ID, o[m].Edge.ID, o[m].Edge.Label, 1)) && o[m].Edge.To == o[m].ID &&
+//@           (len(edgeLabels) == 0 || (exists q :: 0 <= q && q < len(edgeLabels) && edgeLabels[q] == o[m].Edge.Label))))
+//@   loop 101 invariant count: len(edgeLabels) == 0 ==> wr(o) == cnt(reqChan, rd(reqChan))
+//@   loop 102 invariant pos: 0 < rd(reqChan) && rd(reqChan) <= len(reqChan) && !closed(o) && req.ID == reqChan[rd(reqChan) - 1].ID && req.Ref == reqChan[rd(reqChan) - 1].Ref &&
+//@       !(req.Ref != nil && tSignal(req.Ref)) && dkeyPrefix == dpfxOf(kgdb.graph, req.ID)
+//@   loop 102 invariant frame: freshonly("SH.Str")
+//@   loop 102 invariant store: same(kvdom(), old(kvdom())) && same(kvvals(), old(kvvals())) && kvwrites() == old(kvwrites())
+//@   loop 102 invariant iter: itvalid() ==> kvhas(itpos()) && ble(dkeyPrefix, itpos())
+//@   loop 102 invariant sound: forall m :: 0 <= m && m < wr(o) ==> ((!(o[m].Ref != nil && tSignal(o[m].Ref)) && o[m].Edge == nil ==> emitNull) &&
+//@       (!(o[m].Ref != nil && tSignal(o[m].Ref)) && o[m].Edge != nil ==> o[m].Edge > 0 && o[m].Edge < alloc && kvhas(dkeyOf(kgdb.graph, o[m].Edge.From, o[m].ID, o[m].Edge.ID, o[m].Edge.Label, 1)) && o[m].Edge.To == o[m].ID &&
+//@           (len(edgeLabels) == 0 || (exists q :: 0 <= q && q < len(edgeLabels) && edgeLabels[q] == o[m].Edge.Label))))
+//@   loop 102 invariant count: len(edgeLabels) == 0 ==>
+//@       (itvalid() ==> wr(o) == cnt(reqChan, rd(reqChan) - 1) + pbelow(kvdom(), dkeyPrefix, itpos()) && (found <==> pbelow(kvdom(), dkeyPrefix, itpos()) > 0)) &&
+//@       (!itvalid() ==> wr(o) == cnt(reqChan, rd(reqChan) - 1) + pcount(kvdom(), dkeyPrefix) && (found <==> pcount(kvdom(), dkeyPrefix) > 0))
+//@   ensures closed: closed(o)
+//@   ensures drained: rd(reqChan) == len(reqChan)
+//@   ensures sound: forall m :: 0 <= m && m < wr(o) ==> ((!(o[m].Ref != nil && tSignal(o[m].Ref)) && o[m].Edge == nil ==> emitNull) &&
+//@       (!(o[m].Ref != nil && tSignal(o[m].Ref)) && o[m].Edge != nil ==> o[m].Edge > 0 && o[m].Edge < alloc && kvhas(dkeyOf(kgdb.graph, o[m].Edge.From, o[m].ID, o[m].Edge.ID, o[m].Edge.Label, 1)) && o[m].Edge.To == o[m].ID &&
+//@           (len(edgeLabels) == 0 || (exists q :: 0 <= q && q < len(edgeLabels) && edgeLabels[q] == o[m].Edge.Label))))
+//@   ensures count: len(edgeLabels) == 0 ==> wr(o) == cnt(reqChan, len(reqChan))
+//@   ensures readonly: same(kvdom(), old(kvdom())) && same(kvvals(), old(kvvals())) && kvwrites() == old(kvwrites())
+
+// GetInChannel: the same pass over the by-destination entries of the requested vertex; an
+// answer carries the stored vertex whose id is the source component of one such entry with
+// an admitted label (entries whose source vertex is not stored are skipped, so no exact
+// count is stated).
+//@ func (*KVInterfaceGDB).GetInChannel$1
+//@   property C03
+//@   option prelude=keys,kv,idxcount,trav
+//@   option load=kvindex,kvi,timestamp,gdbi,gripql
+//@   option globals=kvgraph
+//@   modifies alloc KV.it Ch SH. Box. H.gdbi. H.gripql. H.structpb. MapD. MapV. MapN
+//@   requires nonnil: kgdb != nil && kgdb.kvg != nil && kgdb.kvg.kv != nil
+//@   requires fresh: reqChan != nil && o != nil && reqChan != o && rd(reqChan) == 0 && wr(o) == 0 && !closed(o)
+//@   requires labels: soff(edgeLabels) >= 0
+//@   requires wf: nozero(kgdb.graph) && (forall k:Str, v:Str :: kvhas(k) && hasprefix(k, dpfxOf(kgdb.graph, v)) ==>
+//@       nozero(slnth(bsplit(k, sep0), 3)) && nozero(slnth(bsplit(k, sep0), 4)) && nozero(slnth(bsplit(k, sep0), 5)) && nozero(v) &&
+//@       k == dkeyOf(kgdb.graph, slnth(bsplit(k, sep0), 3), v, slnth(bsplit(k, sep0), 4), slnth(bsplit(k, sep0), 5), 1))
+//@   loop 101 invariant pos: 0 <= rd(reqChan) && rd(reqChan) <= len(reqChan) && !closed(o)
+//@   loop 101 invariant frame: freshonly("SH.Str")
+//@   loop 101 invariant store: same(kvdom(), old(kvdom())) && same(kvvals(), old(kvvals())) && kvwrites() == old(kvwrites())
+//@   loop 101 invariant sound: forall m :: 0 <= m && m < wr(o) ==> ((!(o[m].Ref != nil && tSignal(o[m].Ref)) && o[m].Vertex == nil ==> emitNull) &&
+//@       (!(o[m].Ref != nil && tSignal(o[m].Ref)) && o[m].Vertex != nil ==> o[m].Vertex > 0 && o[m].Vertex < alloc && kvhas(vkeyOf(kgdb.graph, o[m].Vertex.ID)) &&
+//@           (exists k:Str :: kvhas(k) && hasprefix(k, dpfxOf(kgdb.graph, o[m].ID)) && o[m].Vertex.ID == slnth(bsplit(k, sep0), 3) && (len(edgeLabels) == 0 || (exists q :: 0 <= q && q < len(edgeLabels) && edgeLabels[q] == slnth(bsplit(k, sep0), 5))))))
+//@   loop 102 invariant pos: 0 < rd(reqChan) && rd(reqChan) <= len(reqChan) && !closed(o) && req.ID == reqChan[rd(reqChan) - 1].ID && req.Ref == reqChan[rd(reqChan) - 1].Ref &&
+//@       !(req.Ref != nil && tSignal(req.Ref)) && dkeyPrefix == dpfxOf(kgdb.graph, req.ID)
+//@   loop 102 invariant frame: freshonly("SH.Str")
+//@   loop 102 invariant store: same(kvdom(), old(kvdom())) && same(kvvals(), old(kvvals())) && kvwrites() == old(kvwrites())
+//@   loop 102 invariant iter: itvalid() ==> kvhas(itpos()) && ble(dkeyPrefix, itpos())
+//@   loop 102 invariant sound: forall m :: 0 <= m && m < wr(o) ==> ((!(o[m].Ref != nil && tSignal(o[m].Ref)) && o[m].Vertex == nil ==> emitNull) &&
+//@       (!(o[m].Ref != nil && tSignal(o[m].Ref)) && o[m].Vertex != nil ==> o[m].Vertex > 0 && o[m].Vertex < alloc && kvhas(vkeyOf(kgdb.graph, o[m].Vertex.ID)) &&
+//@           (exists k:Str :: kvhas(k) && hasprefix(k, dpfxOf(kgdb.graph, o[m].ID)) && o[m].Vertex.ID == slnth(bsplit(k, sep0), 3) && (len(edgeLabels) == 0 || (exists q :: 0 <= q && q < len(edgeLabels) && edgeLabels[q] == slnth(bsplit(k, sep0), 5))))))
+//@   ensures closed: closed(o)
+//@   ensures drained: rd(reqChan) == len(reqChan)
+//@   ensures sound: forall m :: 0 <= m && m < wr(o) ==> ((!(o[m].Ref != nil && tSignal(o[m].Ref)) && o[m].Vertex == nil ==> emitNull) &&
+//@       (!(o[m].Ref != nil && tSignal(o[m].Ref)) && o[m].Vertex != nil ==> o[m].Vertex > 0 && o[m].Vertex < alloc && kvhas(vkeyOf(kgdb.graph, o[m].Vertex.ID)) &&
+//@           (exists k:Str :: kvhas(k) && hasprefix(k, dpfxOf(kgdb.graph, o[m].ID)) && o[m].Vertex.ID == slnth(bsplit(k, sep0), 3) && (len(edgeLabels) == 0 || (exists q :: 0 <= q && q < len(edgeLabels) && edgeLabels[q] == slnth(bsplit(k, sep0), 5))))))
+//@   ensures readonly: same(kvdom(), old(kvdom())) && same(kvvals(), old(kvvals())) && kvwrites() == old(kvwrites())
+
+// ---- C03: batch vertex lookups (GetVertexChannel) ---------------------------------------
+// First half: requests are answered in order; a signal is passed on; a request whose vertex
+// key is stored is passed on with the stored bytes; a request for an absent id is dropped.
+//@ func (*KVInterfaceGDB).GetVertexChannel$1
+//@   property C03
+//@   option prelude=keys,kv,trav
+//@   option load=kvindex,kvi,timestamp,gdbi,gripql
+//@   option globals=kvgraph
+//@   modifies alloc KV.it Ch SH. Box.
+//@   requires nonnil: kgdb != nil && kgdb.kvg != nil && kgdb.kvg.kv != nil
+//@   requires fresh: ids != nil && data != nil && ids != data && rd(ids) == 0 && wr(data) == 0 && !closed(data)
+//@   axiom c0: cnt(ids, 0) == 0
+//@   axiom cS: forall k :: 0 <= k ==> cnt(ids, k + 1) == cnt(ids, k) +
+//@       ite((ids[k].Ref != nil && tSignal(ids[k].Ref)) || kvhas(vkeyOf(kgdb.graph, ids[k].ID)), 1, 0)
+//@   loop 101 invariant pos: 0 <= rd(ids) && rd(ids) <= len(ids) && !closed(data) && wr(data) == cnt(ids, rd(ids))
+//@   loop 101 invariant store: same(kvdom(), old(kvdom())) && same(kvvals(), old(kvvals())) && kvwrites() == old(kvwrites())
+//@   loop 101 invariant mono: forall j :: 0 <= j && j <= rd(ids) ==> cnt(ids, j) <= cnt(ids, rd(ids))
+//@   loop 101 invariant elems: forall j :: 0 <= j && j < rd(ids) && ((ids[j].Ref != nil && tSignal(ids[j].Ref)) || kvhas(vkeyOf(kgdb.graph, ids[j].ID))) ==>
+//@       data[cnt(ids, j)].req.ID == ids[j].ID && data[cnt(ids, j)].req.Ref == ids[j].Ref &&
+//@       (!(ids[j].Ref != nil && tSignal(ids[j].Ref)) ==> data[cnt(ids, j)].data == kvval(vkeyOf(kgdb.graph, ids[j].ID)))
+//@   ensures closed: closed(data)
+//@   ensures drained: rd(ids) == len(ids) && wr(data) == cnt(ids, len(ids))
+//@   ensures elems: forall j :: 0 <= j && j < len(ids) && ((ids[j].Ref != nil && tSignal(ids[j].Ref)) || kvhas(vkeyOf(kgdb.graph, ids[j].ID))) ==>
+//@       data[cnt(ids, j)].req.ID == ids[j].ID && data[cnt(ids, j)].req.Ref == ids[j].Ref &&
+//@       (!(ids[j].Ref != nil && tSignal(ids[j].Ref)) ==> data[cnt(ids, j)].data == kvval(vkeyOf(kgdb.graph, ids[j].ID)))
+//@   ensures readonly: same(kvdom(), old(kvdom())) && same(kvvals(), old(kvvals())) && kvwrites() == old(kvwrites())
+
+// Second half: one answer per item, in order; a signal is passed on unchanged, any other
+// item becomes the request with a vertex carrying the requested id (the label comes from
+// decoding the stored bytes, whose failure the code ignores: not stated).
+//@ func (*KVInterfaceGDB).GetVertexChannel$2
+//@   property C03
+//@   option prelude=keys,kv,trav
+//@   option load=kvindex,kvi,timestamp,gdbi,gripql
+//@   option globals=kvgraph
+//@   modifies alloc Ch SH. Box. H.gdbi. H.gripql. H.structpb. MapD. MapV. MapN
+//@   requires fresh: data != nil && out != nil && data != out && rd(data) == 0 && wr(out) == 0 && !closed(out)
+//@   loop 1 invariant pos: 0 <= rd(data) && rd(data) <= len(data) && !closed(out) && wr(out) == rd(data)
+//@   loop 1 invariant elems: forall j :: 0 <= j && j < rd(data) ==> out[j].ID == data[j].req.ID && out[j].Ref == data[j].req.Ref &&
+//@       (!(data[j].req.Ref != nil && tSignal(data[j].req.Ref)) ==> out[j].Vertex > 0 && out[j].Vertex < alloc && out[j].Vertex.ID == data[j].req.ID)
+//@   ensures closed: closed(out)
+//@   ensures drained: rd(data) == len(data) && wr(out) == len(data)
+//@   ensures elems: forall j :: 0 <= j && j < len(data) ==> out[j].ID == data[j].req.ID && out[j].Ref == data[j].req.Ref &&
+//@       (!(data[j].req.Ref != nil && tSignal(data[j].req.Ref)) ==> out[j].Vertex != nil && out[j].Vertex.ID == data[j].req.ID)
+
+// GetOutChannel's loader (second half): every answer comes from one scanned item, a signal
+// unchanged, an item without data as a null answer, and an item with data as the request
+// with the vertex stored under that key, carrying the id the key spells (items whose key
+// is not stored, or whose bytes do not decode, are dropped). Nothing is written.
+//@ func (*KVInterfaceGDB).GetOutChannel$2
+//@   property C03
+//@   option prelude=keys,kv,trav
+//@   option load=kvindex,kvi,timestamp,gdbi,gripql
+//@   option globals=kvgraph
+//@   modifies alloc KV.it Ch SH. Box. H.gdbi. H.gripql. H.structpb. MapD. MapV. MapN
+//@   requires nonnil: kgdb != nil && kgdb.kvg != nil && kgdb.kvg.kv != nil
+//@   requires fresh: vertexChan != nil && o != nil && vertexChan != o && rd(vertexChan) == 0 && wr(o) == 0 && !closed(o)
+//@   loop 101 invariant pos: 0 <= rd(vertexChan) && rd(vertexChan) <= len(vertexChan) && !closed(o)
+//@   loop 101 invariant store: same(kvdom(), old(kvdom())) && same(kvvals(), old(kvvals())) && kvwrites() == old(kvwrites())
+//@   loop 101 invariant sound: forall m :: 0 <= m && m < wr(o) ==> (exists j :: 0 <= j && j < rd(vertexChan) &&
+//@       o[m].ID == vertexChan[j].req.ID && o[m].Ref == vertexChan[j].req.Ref &&
+//@       (!(o[m].Ref != nil && tSignal(o[m].Ref)) ==>
+//@           (vertexChan[j].data == "" ==> o[m].Vertex == nil) &&
+//@           (vertexChan[j].data != "" ==> o[m].Vertex > 0 && o[m].Vertex < alloc && kvhas(vertexChan[j].data) && o[m].Vertex.ID == slnth(bsplit(vertexChan[j].data, sep0), 2))))
+//@   ensures closed: closed(o)
+//@   ensures drained: rd(vertexChan) == len(vertexChan)
+//@   ensures sound: forall m :: 0 <= m && m < wr(o) ==> (exists j :: 0 <= j && j < len(vertexChan) &&
+//@       o[m].ID == vertexChan[j].req.ID && o[m].Ref == vertexChan[j].req.Ref &&
+//@       (!(o[m].Ref != nil && tSignal(o[m].Ref)) ==>
+//@           (vertexChan[j].data == "" ==> o[m].Vertex == nil) &&
+//@           (vertexChan[j].data != "" ==> o[m].Vertex != nil && kvhas(vertexChan[j].data) && o[m].Vertex.ID == slnth(bsplit(vertexChan[j].data, sep0), 2))))
 //@   ensures readonly: same(kvdom(), old(kvdom())) && same(kvvals(), old(kvvals())) && kvwrites() == old(kvwrites())
